@@ -420,9 +420,9 @@ Proof.
     + destruct p as [|x p].
       * exists [], (o :: h), []. auto.
       * exists [], (o :: h), (x :: p). split; [reflexivity|]. split; [reflexivity|]. right.
-        exists o, h. split; [reflexivity|]. split.
+        exists o, h. split; [reflexivity|]. unfold hist_live. cbn [fold_left]. fold own. split.
         -- eapply prefix_short; [exact Hp|lia].
-        -- cbn [hist_live fold_left]. fold own. cbn [length] in *. lia.
+        -- cbn [length] in *. lia.
 Qed.
 
 (* The reopened tables are the tables the store model has after some prefix of the CALLS,
@@ -565,4 +565,26 @@ Proof.
   - destruct j; reflexivity.
   - destruct cs as [|c cs]; [destruct j; reflexivity|]. destruct j; [reflexivity|].
     cbn [map combine firstn]. rewrite cr_run_cons, IH. reflexivity.
+Qed.
+
+(* ... in the vocabulary of Model/SqliteStore.v *)
+Lemma map_eq_app_firstn : forall A B (f : A -> B) l a b,
+  map f l = a ++ b -> a = map f (firstn (length a) l).
+Proof.
+  induction l as [|y l IH]; intros a b H; destruct a as [|x a]; cbn in *; try reflexivity; try discriminate.
+  inversion H. f_equal. eapply IH; eauto.
+Qed.
+
+Definition not_insert_many (o : op) : Prop := match o with InsertMany _ _ => False | _ => True end.
+
+Lemma reopened_is_store_state : forall lazy d0 t0 hs tr k,
+  map fst tr = hist_script d0 (map Std hs) -> Forall not_insert_many hs ->
+  exists n, reopen (cr_run lazy (cr_init d0 t0) (firstn k tr)) = sq_run d0 (firstn n hs).
+Proof.
+  intros lazy d0 t0 hs tr k Htr Hn.
+  assert (Hnb : Forall (fun o => ~ cr_bulk_op o) (map Std hs)).
+  { apply Forall_forall. intros o Ho. apply in_map_iff in Ho. destruct Ho as (o' & <- & Hin).
+    rewrite Forall_forall in Hn. specialize (Hn o' Hin). destruct o'; cbn in *; tauto. }
+  destruct (reopened_is_call_prefix_no_bulk lazy d0 t0 _ tr k Htr Hnb) as (h1 & rest & Hh & Hd).
+  exists (length h1). rewrite Hd. rewrite (map_eq_app_firstn _ _ _ _ _ _ Hh) at 1. apply hist_live_std.
 Qed.
